@@ -544,6 +544,107 @@ fn seed_of(args: &Args) -> u64 {
     args.seed
 }
 
+
+/// Steady-state hammer: many threads evaluate MANY different contexts (places, calendars) on the
+/// SAME few days at the highest rate the library allows, every answer compared with the answer the
+/// same call gave sequentially before the threads started. Process-wide state shared between
+/// evaluations of different contexts (a lock-free memo table, a scratch buffer, an index into a
+/// shared table) is only wrong while two threads use it at the same moment for two different keys
+/// that meet in it: thousands of keys on a handful of days make such meetings frequent, and short
+/// calls (`schedule_at`) keep the proportion of time spent inside the shared state high.
+pub fn hammer(args: &Args, rep: &mut Report) {
+    let threads: usize = extra(args, "threads").and_then(|s| s.parse().ok()).unwrap_or(16);
+    let n_places: usize = extra(args, "places").and_then(|s| s.parse().ok()).unwrap_or(4096);
+    let iters: usize = extra(args, "iters").and_then(|s| s.parse().ok()).unwrap_or(250_000);
+    let mut r = Rng::new(args.seed, 0x4a33e7, n_places as u64);
+    let exprs = ["sunrise-sunset", "dawn-dusk", "(sunrise+01:00)-(sunset-01:00); PH off", "Mo-Fr sunrise-12:00,13:00-dusk unknown \"c\""];
+    let days: Vec<NaiveDate> = vec![NaiveDate::from_ymd_opt(2024, 6, 21).unwrap(), NaiveDate::from_ymd_opt(2025, 12, 21).unwrap() + Duration::days(r.range(0, 300))];
+    // places: half spread over the globe below 60 degrees, half in clusters a few metres apart
+    let mut places: Vec<(f64, f64)> = Vec::with_capacity(n_places);
+    while places.len() < n_places {
+        if places.len() % 2 == 0 || places.is_empty() {
+            places.push((r.range(-60_000, 60_000) as f64 / 1000.0, r.range(-179_999, 179_999) as f64 / 1000.0));
+        } else {
+            let (la, lo) = places[r.below(places.len() as u64) as usize];
+            places.push(((la + r.range(-50, 50) as f64 * 1e-4).clamp(-60.0, 60.0), (lo + r.range(-50, 50) as f64 * 1e-4).clamp(-179.9, 179.9)));
+        }
+    }
+    let zones: [Tz; 4] = [chrono_tz::UTC, chrono_tz::Europe::Paris, chrono_tz::Asia::Kolkata, chrono_tz::America::St_Johns];
+    let hol = HolSpec::Synthetic("sparse".into());
+    let values: Vec<OpeningHours<TzLocation<Tz>>> = places
+        .iter()
+        .enumerate()
+        .map(|(i, (la, lo))| {
+            let coords = Coordinates::new(*la, *lo).unwrap();
+            let ctx = Context::default().with_holidays(hol.build()).with_locale(TzLocation::new(zones[i % zones.len()]).with_coords(coords));
+            OpeningHours::parse(exprs[i % exprs.len()]).unwrap().with_context(ctx)
+        })
+        .collect();
+    // sequential reference (before any thread exists)
+    let reference: Vec<Vec<String>> = values.iter().map(|v| days.iter().map(|d| guarded(|| fmt_sched(v.schedule_at(*d))).unwrap_or_else(|p| format!("PANIC {p}"))).collect()).collect();
+    // a second sequential pass must agree with the first (otherwise the difference is not about threads)
+    for (i, v) in values.iter().enumerate() {
+        for (k, d) in days.iter().enumerate() {
+            let again = guarded(|| fmt_sched(v.schedule_at(*d))).unwrap_or_else(|p| format!("PANIC {p}"));
+            if again != reference[i][k] {
+                rep.violation("repeated_call_differs", format!("place {:?}, {:?} on {d}: a second sequential call gives {again}, the first gave {}", places[i], exprs[i % exprs.len()], reference[i][k]), json!({"seed": args.seed, "mode": "hammer"}), None);
+                return;
+            }
+        }
+    }
+    let values = Arc::new(values);
+    let reference = Arc::new(reference);
+    let days = Arc::new(days);
+    let barrier = Arc::new(Barrier::new(threads));
+    let mut handles = Vec::new();
+    for th in 0..threads {
+        let (values, reference, days, barrier) = (values.clone(), reference.clone(), days.clone(), barrier.clone());
+        let seed = args.seed;
+        handles.push(std::thread::spawn(move || {
+            crate::out::install_quiet_panic_hook();
+            let mut r = Rng::new(seed, 0x4a33e8, th as u64);
+            let mut bad: Vec<(usize, usize, String)> = Vec::new();
+            let mut n_bad = 0u64;
+            barrier.wait();
+            for _ in 0..iters {
+                let i = r.below(values.len() as u64) as usize;
+                let k = r.below(days.len() as u64) as usize;
+                let got = guarded(|| fmt_sched(values[i].schedule_at(days[k]))).unwrap_or_else(|p| format!("PANIC {p}"));
+                if got != reference[i][k] {
+                    n_bad += 1;
+                    if bad.len() < 3 {
+                        bad.push((i, k, got));
+                    }
+                }
+            }
+            (bad, n_bad)
+        }));
+    }
+    let mut total_bad = 0u64;
+    for (th, h) in handles.into_iter().enumerate() {
+        match h.join() {
+            Ok((bad, n_bad)) => {
+                total_bad += n_bad;
+                for (i, k, got) in bad {
+                    rep.violation(
+                        "concurrent_result_differs",
+                        format!("hammer: thread {th}/{threads}, {} places x {} days: schedule_at({}) of {:?} at {:?} (zone {}) differs from the sequential answer:\n  got      {got}\n  expected {}", places.len(), days.len(), days[k], exprs[i % exprs.len()], places[i], zones[i % zones.len()], reference[i][k]),
+                        json!({"seed": args.seed, "mode": "hammer", "threads": threads, "places": places.len()}),
+                        None,
+                    );
+                }
+            }
+            Err(_) => rep.violation("thread_panicked", format!("hammer thread {th} panicked outside of a guarded call"), json!({"seed": args.seed, "mode": "hammer"}), None),
+        }
+    }
+    let total = (threads * iters) as u64;
+    rep.evaluations += total;
+    rep.add("hammer_concurrent_evaluations", total);
+    rep.add("hammer_wrong_answers", total_bad);
+    rep.max("hammer_places", places.len() as u64);
+    rep.count(&format!("hammer_runs.places_{}", places.len()));
+}
+
 pub fn run(args: &Args, rep: &mut Report) {
     LIGHT.store(extra(args, "light").is_some(), Ordering::Relaxed);
     let mode = extra(args, "mode").unwrap_or("small");
@@ -562,6 +663,7 @@ pub fn run(args: &Args, rep: &mut Report) {
                 rep.nontrivial(crate::rng::hash64(&format!("{}|{:?}|{}", c.text, c.ctx, c.t)));
             }
         }
+        "hammer" => hammer(args, rep),
         "threads" => {
             let path = extra(args, "ref").expect("ref=FILE");
             let answers: Vec<String> = serde_json::from_str(&std::fs::read_to_string(path).expect("read reference")).expect("reference json");
